@@ -226,3 +226,8 @@ Qed.
 (* width of the length prefix: re-read from the source on every run *)
 Lemma tcp_size_width_pinned : RV.Generated.Params.tcp_size_width = 16.
 Proof. reflexivity. Qed.
+
+(* width of the conditioner's insertion counter: the model's counter is unbounded; 2^64 insertions are out of reach,
+   a narrower counter is not *)
+Lemma cond_sequence_width_pinned : RV.Generated.Params.cond_sequence_width = 64.
+Proof. reflexivity. Qed.
